@@ -16,7 +16,7 @@ U64 = 2 ** 64 - 1
 MODULE = "nodegraph"
 ADAPTER = "nodegraph_impl.py"
 
-SIZES = [1, 2, 3, 4, 5, 6, 7, 8, 9, 12, 13, 30, 32, 33, 34, 63, 64, 65, 66, 100, 257, 1000, 1000, 4097]
+SIZES = [0, 1, 2, 3, 4, 5, 6, 7, 8, 9, 12, 13, 30, 32, 33, 34, 63, 64, 65, 66, 100, 257, 1000, 1000, 4097]
 
 
 def le(n, v):
